@@ -20,7 +20,8 @@
 EXTENDS ChibiInt
 
 CONSTANTS Shapes,       \* which shapes this configuration explores
-          D2Types, D2Ops1, D2Ops2
+          D2Types, D2Ops1, D2Ops2,
+          OpAsgAll      \* TRUE: op= over all value pairs; FALSE: boundary values (op= is Load + bin + asg, each checked over all values)
 
 VARIABLES sh, op, op2, a, b, c, x, y, z, ph
 vars == <<sh, op, op2, a, b, c, x, y, z, ph>>
@@ -50,6 +51,7 @@ Next == /\ ph = 0 /\ ph' = 1
         /\ IF sh \in {"d2l", "d2r", "d2u"}
            THEN x' \in Bnd(a) /\ y' \in Bnd(b) /\ z' \in Bnd(c)
            ELSE IF sh = "cond" THEN x' \in Bnd(a) /\ y' \in Bnd(b) /\ z' \in All(c)
+           ELSE IF sh = "opasg" /\ ~OpAsgAll THEN x' \in Bnd(a) /\ y' \in Bnd(b) /\ z' = 0
            ELSE IF sh \in {"bin", "opasg"} THEN x' \in All(a) /\ y' \in All(b) /\ z' = 0
            ELSE x' \in All(a) /\ y' = 0 /\ z' = 0
 Spec == Init /\ [][Next]_vars
@@ -79,21 +81,23 @@ G(t) == IF t = "-" THEN {0} ELSE Garb(t)
 Depth1 == sh \in {"bin", "un", "cast", "cond", "asg", "test", "opasg", "incdec"}
 
 (* the type chibicc gives the expression has the C11 size and signedness (whenever some operand values make it defined) *)
-TypeInv == (ph = 1 /\ Depth1 /\ LA.ok) => TyObs(LI(0, 0, 0).t) = TyObs(LA.t)
+TypeInv == (ph = 1 /\ Depth1) => LET la == LA IN la.ok => TyObs(LI(0, 0, 0).t) = TyObs(la.t)
 
 (* value: the result register is a legal register for the C11 value, and (unsigned long)expr prints it *)
 ValueInv ==
-  (ph = 1 /\ Depth1 /\ LA.ok) =>
-     \A g1 \in G(a), g2 \in G(b), g3 \in G(c) :
-        LET i == LI(g1, g2, g3) IN RegOK(i.t, i.r, LA.v) /\ Obs(i) = U(LA.v, WL)
+  (ph = 1 /\ Depth1) =>
+     LET la == LA IN
+     la.ok => \A g1 \in G(a), g2 \in G(b), g3 \in G(c) :
+                 LET i == LI(g1, g2, g3) IN RegOK(i.t, i.r, la.v) /\ Obs(i) = U(la.v, WL)
 
 (* the object written by an initializer/argument/return/assignment, op= or ++/-- holds the C11 value,
    and loading it back yields a legal register *)
 ObjInv ==
-  (ph = 1 /\ sh \in {"asg", "opasg", "incdec"} /\ LA.ok) =>
-     \A g1 \in G(a), g2 \in G(b) :
+  (ph = 1 /\ sh \in {"asg", "opasg", "incdec"}) =>
+     LET la == LA IN
+     la.ok => \A g1 \in G(a), g2 \in G(b) :
         LET td == IF sh = "asg" THEN b ELSE a
-            va == IF sh = "incdec" THEN LA.obj ELSE LA.v
+            va == IF sh = "incdec" THEN la.obj ELSE la.v
             m  == IF sh = "incdec" THEN LI(g1, g2, 0).obj ELSE Store(td, LI(g1, g2, 0).r)
         IN m = Mem(td, va) /\ RegOK(td, Load(td, m), va)
 LoadInv == (ph = 1 /\ sh = "un") => RegOK(a, Load(a, Mem(a, x)), x)
@@ -117,24 +121,25 @@ Commutes == {"add", "mul", "band", "bor", "bxor", "eq", "ne", "land", "lor"}
 Mirror(o) == CASE o = "lt" -> "gt" [] o = "gt" -> "lt" [] o = "le" -> "ge" [] o = "ge" -> "le" [] OTHER -> o
 SanityInv ==
   ph = 1 =>
-  /\ Depth1 /\ LA.ok => InRange(LA.v, LA.t)                                 \* type soundness
+  LET LAx == LA IN
+  /\ Depth1 /\ LAx.ok => InRange(LAx.v, LAx.t)                                 \* type soundness
   /\ sh = "un" => /\ Convert(x, Promote(a)) = x                             \* promotion preserves the value
                   /\ InRange(x, a) /\ Convert(x, a) = x                     \* conversion is idempotent
-                  /\ (op = "lnot" => LA.v = (IF x = 0 THEN 1 ELSE 0))
+                  /\ (op = "lnot" => LAx.v = (IF x = 0 THEN 1 ELSE 0))
   /\ sh = "bin" =>
        /\ TyObs(UAC(a, b)) = TyObs(UAC(b, a))                               \* 6.3.1.8 is symmetric
        /\ W(UAC(a, b)) >= WInt
-       /\ (op \in Commutes \cup RelOps => LET m == Bin(Mirror(op), b, y, a, x) IN m.ok = LA.ok /\ (LA.ok => m.v = LA.v))
-       /\ (op \in RelOps \cup LogOps /\ LA.ok => LA.v \in {0, 1})
-       /\ (op = "div" /\ LA.ok =>                                          \* (a/b)*b + a%b = a  (6.5.5p6)
+       /\ (op \in Commutes \cup RelOps => LET m == Bin(Mirror(op), b, y, a, x) IN m.ok = LAx.ok /\ (LAx.ok => m.v = LAx.v))
+       /\ (op \in RelOps \cup LogOps /\ LAx.ok => LAx.v \in {0, 1})
+       /\ (op = "div" /\ LAx.ok =>                                          \* (a/b)*b + a%b = a  (6.5.5p6)
              LET r == Bin("mod", a, x, b, y)  ct == UAC(a, b)
-             IN r.ok /\ LA.v * Convert(y, ct) + r.v = Convert(x, ct))
-       /\ (~Sg(UAC(a, b)) /\ op \in {"add", "sub", "mul", "band", "bor", "bxor"} => LA.ok)   \* unsigned never overflows
+             IN r.ok /\ LAx.v * Convert(y, ct) + r.v = Convert(x, ct))
+       /\ (~Sg(UAC(a, b)) /\ op \in {"add", "sub", "mul", "band", "bor", "bxor"} => LAx.ok)   \* unsigned never overflows
   /\ sh = "opasg" => LET r == Bin(op, a, x, b, y)                           \* a op= b  ==  a = (T)(a op b)
-                     IN LA.ok = r.ok /\ (LA.ok => LA.v = Cast(a, r.t, r.v).v /\ LA.t = a)
-  /\ sh = "incdec" /\ LA.ok =>
-       /\ (op \in {"postinc", "postdec"} => LA.v = x)                       \* x++ yields the old value
-       /\ (op \in {"preinc", "predec"} => LA.v = LA.obj)
-       /\ (a = "bool" => LA.obj = (IF op \in {"preinc", "postinc"} THEN 1 ELSE 1 - x))
-       /\ (a # "bool" => LA.obj = Convert(IF op \in {"preinc", "postinc"} THEN x + 1 ELSE x - 1, a))
+                     IN LAx.ok = r.ok /\ (LAx.ok => LAx.v = Cast(a, r.t, r.v).v /\ LAx.t = a)
+  /\ sh = "incdec" /\ LAx.ok =>
+       /\ (op \in {"postinc", "postdec"} => LAx.v = x)                       \* x++ yields the old value
+       /\ (op \in {"preinc", "predec"} => LAx.v = LAx.obj)
+       /\ (a = "bool" => LAx.obj = (IF op \in {"preinc", "postinc"} THEN 1 ELSE 1 - x))
+       /\ (a # "bool" => LAx.obj = Convert(IF op \in {"preinc", "postinc"} THEN x + 1 ELSE x - 1, a))
 =============================================================================
